@@ -48,7 +48,7 @@ def cases(draw, tier="quick"):
     if draw(st.sampled_from([False, False, True])):
         fields = [f for f in fields if not f.startswith("Y(")] or ["phi"]
     spec = draw(plotgen.plot_specs(max_cells=1200 if tier == "quick" else 4000, fields=fields,
-                                   payload_kinds=("random", "special", "coded")))
+                                   payload_kinds=("random", "special", "sparse", "sparse")))
     spec["time"] = draw(st.sampled_from(TIMES))
     opts = draw(st.sampled_from([dict(), dict(min_max=True), dict(finest_lv=True), dict(min_max=True, finest_lv=True),
                                  dict(description=True), dict(every=True), dict(has_var=True),
